@@ -340,3 +340,87 @@ def ret_table(facts, body, scrutinee):
                 if v not in out[list(names)[0]]:
                     out[list(names)[0]].append(v)
     return out
+
+
+def ret_variant_alts(facts, body, scrutinee):
+    """{variant name of the value satisfying `scrutinee`: [Alt]} -- the consistent alternatives of the returned value on the paths on
+    which the scrutinee has that variant (like ret_table, but the atoms are kept so that a two-way choice can be recognised)"""
+    al = ret_alts_paths(facts, body)
+    if al is None:
+        return None
+    out = {}
+    for a in al:
+        for f in flatten(a.value):
+            m = Alt(nosite(f.value), list(a.variants) + list(f.variants), list(a.atoms) + list(f.atoms))
+            if not consistent(m):
+                continue
+            names = None
+            for t, n in m.variants:
+                if scrutinee(core(t)):
+                    names = set(n) if names is None else names & set(n)
+            if names and len(names) == 1:
+                k = list(names)[0]
+                at = []
+                for t, p in m.atoms:
+                    if (nosite(t), p) not in at:
+                        at.append((nosite(t), p))
+                if any((t, not p) in at for t, p in at):
+                    continue   # the same test both ways: not a path
+                m.atoms = at
+                out.setdefault(k, [])
+                if not any(o.value == m.value and sorted(map(repr, o.atoms)) == sorted(map(repr, m.atoms)) for o in out[k]):
+                    out[k].append(m)
+    return out
+
+
+def _diff(a, b, path=()):
+    """positions at which two trees differ: [(path, subtree of a, subtree of b)] (outermost differing nodes of equal-shaped parents)"""
+    if a == b:
+        return []
+    if isinstance(a, tuple) and isinstance(b, tuple) and len(a) == len(b) and a and b and \
+            ((a[0] == b[0] and a[0] in ('agg', 'call', 'bin', 'un', 'cast', 'field')) or (isinstance(a[0], tuple) and isinstance(b[0], tuple))):
+        out = []
+        for i, (x, y) in enumerate(zip(a, b)):
+            if x != y:
+                if isinstance(x, tuple) and isinstance(y, tuple):
+                    out += _diff(x, y, path + (i,))
+                else:
+                    return [(path, a, b)]
+        return out
+    return [(path, a, b)]
+
+
+def _put(t, path, v):
+    if not path:
+        return v
+    l = list(t)
+    l[path[0]] = _put(t[path[0]], path[1:], v)
+    return tuple(l)
+
+
+def merge_minmax(alts):
+    """two alternatives that differ in one place, chosen by a comparison of exactly the two candidates (`if a > b { a } else { b }`),
+    are one value with `max(a, b)` / `min(a, b)` in that place; returns the merged value tree or None"""
+    if len(alts) == 1:
+        return alts[0].value
+    if len(alts) != 2:
+        return None
+    x, y = alts
+    d = _diff(x.value, y.value)
+    if len(d) != 1:
+        return None
+    path, vx, vy = d[0]
+    cx, cy = core(vx), core(vy)
+    for t, pol in x.atoms:
+        c = core(t)
+        if not (c[0] == 'bin' and c[1] in ('Gt', 'Ge', 'Lt', 'Le')) or (t, not pol) not in y.atoms:
+            continue
+        p, q = core(c[2]), core(c[3])
+        if {repr(p), repr(q)} != {repr(cx), repr(cy)} or p == q:
+            continue
+        greater_first = c[1] in ('Gt', 'Ge')           # the comparison says "p is the larger one" when it holds
+        holds_pick = cx                                   # x is the alternative on which the comparison has polarity `pol`
+        larger = p if greater_first == pol else q         # which of the two is the larger one on alternative x
+        op = 'max' if repr(holds_pick) == repr(larger) else 'min'
+        return _put(x.value, path, ('call', 'core::cmp::Ord::' + op, (vy, vx) if op == 'max' else (vx, vy)))
+    return None
